@@ -156,7 +156,16 @@ let run_disp toks =
                 | _ -> failwith "disp: bad S")
             | 'D' -> b.dgrams <- b.dgrams @ [parse_dgram (String.split_on_char ',' rest)]; ("-", [])
             | 'G' -> (match String.split_on_char ',' rest with
-                | a :: _ -> b.dgrams <- b.dgrams @ [(z_of_string a, None)]; ("-", [])
+                | [a; hex] ->
+                  (* raw bytes off the wire: the dispatcher parses them with UtpMessage::deserialize - model:
+                     the extracted wire model msg_deserialize (Wire/Header.v, property C11) composed with the
+                     dispatcher model; anything it rejects is dropped *)
+                  let n = String.length hex / 2 in
+                  let bytes = List.init n (fun i -> z_of_int (int_of_string ("0x" ^ String.sub hex (2 * i) 2))) in
+                  let m = (match msg_deserialize bytes with
+                      | MsgSome (h, _) -> Some { dm_type = h.h_type; dm_conn = h.h_conn; dm_seq = h.h_seq; dm_ack = h.h_ack }
+                      | MsgNone | MsgPanic -> None) in
+                  b.dgrams <- b.dgrams @ [(z_of_string a, m)]; ("-", [])
                 | _ -> failwith "disp: bad G")
             | 'R' ->
               let want = String.sub rest 0 1 and script = String.sub rest 1 (String.length rest - 1) in
@@ -220,19 +229,25 @@ let run_disp_pred toks =
         let fw = if fwd = "-" then [] else List.map (fun t -> match String.split_on_char ':' t with
             | [a; c] -> { k_addr = z_of_string a; k_conn = z_of_string c }
             | _ -> failwith "disp_pred: bad fwd") (String.split_on_char ',' fwd) in
-        Some (rsts, fw, dobs_of_digest dg)
+        let syns = if sent = "-" then [] else
+            List.filter_map (fun t -> match String.split_on_char ':' t with
+                | [a; "4"; c; _; _] -> Some { k_addr = z_of_string a; k_conn = z_of_string c }
+                | _ -> None) (String.split_on_char ',' sent) in
+        Some (rsts, fw, dobs_of_digest dg, syns)
       | _ -> None in
     let rec go pre i = function
       | [] -> "OK"
       | tok :: rest ->
         (match parse tok with
          | None -> "OK"     (* PANIC / ARM-NOT-* tokens end the usable part of the trace *)
-         | Some (rsts, fw, post) ->
+         | Some (rsts, fw, post, syns) ->
            let o = { so_pre = pre; so_rsts = z_of_int rsts; so_fwd = fw; so_post = post } in
            let ok = (if which = "c13" then c13_step_ok o else c12_step_ok (z_of_string max_streams) o) in
-           if ok then go post (i + 1) rest else Printf.sprintf "FAIL %s_step_ok step=%d" which i) in
+           if not ok then Printf.sprintf "FAIL %s_step_ok step=%d" which i
+           else if which = "c12" && not (c12_syn_fresh_ok pre syns) then Printf.sprintf "FAIL c12_syn_fresh_ok step=%d" i
+           else go post (i + 1) rest) in
     (match obs with
-     | first :: rest -> (match parse first with Some (_, _, d0) -> go d0 0 rest | None -> "OK")
+     | first :: rest -> (match parse first with Some (_, _, d0, _) -> go d0 0 rest | None -> "OK")
      | [] -> "OK")
   | _ -> failwith "disp_pred: bad case"
 
